@@ -619,7 +619,22 @@ def b_getattr(ex, e, st):
         if not (name.op == 'ctor' and name.args[0] == 'VStr' and name.args[1].op == 'str'):
             raise Unsupported('getattr with non-literal name at line %s' % e.lineno)
         if len(args) == 3:
-            raise Unsupported('getattr default')
+            # getattr(obj, name, default): default when the attribute does not exist
+            for o2, hv in ex.py_hasattr(args[0], name.args[1].args[0], o, e):
+                if not o2.running:
+                    out.append((o2, None))
+                    continue
+                for o3, c in ex.truthy(hv, o2):
+                    if not o3.running:
+                        out.append((o3, None))
+                        continue
+                    yes = o3.assume(c)
+                    if yes is not None:
+                        out.extend(ex.get_attr(args[0], name.args[1].args[0], yes, e))
+                    no = o3.assume(Not(c))
+                    if no is not None:
+                        out.append((no, args[2]))
+            continue
         out.extend(ex.get_attr(args[0], name.args[1].args[0], o, e))
     return out
 
